@@ -63,6 +63,11 @@ func (w *lcWorld) url(kind, name string) string {
 		// another spelling of "in memory": a path plus mode=memory
 		return "rosmar://" + filepath.Join(w.root, "m2") + "?mode=memory"
 	}
+	if kind == "mem3" {
+		// ... whose path is the directory where the on-disk bucket of the first name at "d1" lives:
+		// an in-memory bucket has no business with what is stored there
+		return "rosmar://" + filepath.Join(w.root, "d1", lcNames[0]) + "?mode=memory"
+	}
 	return "rosmar://" + filepath.Join(w.root, kind, name)
 }
 
@@ -83,7 +88,7 @@ var lcModes = []rosmar.OpenMode{rosmar.CreateOrOpen, rosmar.CreateNew, rosmar.Re
 // doOpen: OpenBucket(url(kind), name, mode).
 func (w *lcWorld) doOpen(name, kind string, mode int) {
 	url := w.url(kind, name)
-	if kind != "mem" && kind != "mem2" {
+	if !isMemKind(kind) {
 		_ = os.MkdirAll(filepath.Join(w.root, kind), 0700)
 	}
 	var b *rosmar.Bucket
@@ -106,7 +111,7 @@ func (w *lcWorld) doOpen(name, kind string, mode int) {
 		default:
 			wantOK = true
 		}
-	case kind == "mem" || kind == "mem2":
+	case isMemKind(kind):
 		wantOK, why = mode != 2, "ReOpenExisting on a missing in-memory bucket"
 	default:
 		switch mode {
@@ -127,8 +132,8 @@ func (w *lcWorld) doOpen(name, kind string, mode int) {
 	}
 	if st == nil || !st.loaded {
 		w.incs++
-		st = &lcStore{url: url, urlKind: kind, disk: kind != "mem" && kind != "mem2", inc: w.incs, loaded: true, contents: map[string]string{}}
-		if kind != "mem" && kind != "mem2" {
+		st = &lcStore{url: url, urlKind: kind, disk: !isMemKind(kind), inc: w.incs, loaded: true, contents: map[string]string{}}
+		if !isMemKind(kind) {
 			if persisted, ok := w.onDisk[url]; ok {
 				for k, v := range persisted {
 					st.contents[k] = v
@@ -333,7 +338,9 @@ func (w *lcWorld) cleanup() {
 var lcNames = []string{"x", "y"}
 
 // ("D1" is another directory than "d1": URLs are compared as they are)
-var lcKinds = []string{"mem", "d1", "d2", "D1", "d 3", "mem2"} // ("d 3": a path that needs escaping in a URL)
+func isMemKind(kind string) bool { return kind == "mem" || kind == "mem2" || kind == "mem3" }
+
+var lcKinds = []string{"mem", "d1", "d2", "D1", "d 3", "mem2", "mem3", "d1"} // ("d 3": a path that needs escaping in a URL)
 
 func (w *lcWorld) exec(op Op) {
 	w.step++
